@@ -633,8 +633,10 @@ static void config_cond_clear_node(cond_cache_t * const cond_cache, const data_c
 				config_cond_clear_node(cond_cache, dc_child);
 			}
 		}
-		if (NULL != dc->next) config_cond_clear_node(cond_cache, dc->next);
 	}
+	/* else-branches might hold a result (COND_RESULT_SKIP from a false parent)
+	 * even if this node was never evaluated; always follow the chain */
+	if (NULL != dc->next) config_cond_clear_node(cond_cache, dc->next);
 }
 
 /**
